@@ -1437,6 +1437,12 @@ func fieldAddrOfLoad(v ssa.Value) *ssa.FieldAddr {
 // written twice) takes the same branch; phis are resolved by the edge the path came in on. Each block
 // is entered at most twice per path; on budget exhaustion the answer is true (reachable).
 func reachOnSomePath(fn *ssa.Function, target ssa.Instruction, assume func(v ssa.Value) Tri) bool {
+	return reachOnSomePathAvoiding(fn, target, assume, nil)
+}
+
+// reachOnSomePathAvoiding: as reachOnSomePath, and a path ends where it executes an instruction
+// accepted by barrier before it reaches target.
+func reachOnSomePathAvoiding(fn *ssa.Function, target ssa.Instruction, assume func(v ssa.Value) Tri, barrier func(ssa.Instruction) bool) bool {
 	type pathState struct {
 		decided map[string]Tri
 		phi     map[*ssa.Phi]ssa.Value
@@ -1540,9 +1546,26 @@ func reachOnSomePath(fn *ssa.Function, target ssa.Instruction, assume func(v ssa
 					break
 				}
 			}
-			if b == target.Block() {
-				found = true
-				return
+			if barrier == nil {
+				if b == target.Block() {
+					found = true
+					return
+				}
+			} else {
+				dead := false
+				for _, in := range b.Instrs {
+					if in == target {
+						found = true
+						return
+					}
+					if barrier(in) {
+						dead = true
+						break
+					}
+				}
+				if dead {
+					return
+				}
 			}
 			iff, ok := b.Instrs[len(b.Instrs)-1].(*ssa.If)
 			if !ok {
@@ -1713,4 +1736,157 @@ func constBool(v ssa.Value) (bool, bool) {
 		return constant.BoolVal(k.Value), true
 	}
 	return false, false
+}
+
+// leafAt is one way a merged value can have come about: the leaf value and the block at whose end
+// it entered the merge (nil when the value is not a phi: it is simply itself).
+type leafAt struct {
+	v    ssa.Value
+	from *ssa.BasicBlock
+}
+
+// phiLeafEdges: the non-phi values that flow into v through phis, each with the predecessor block
+// over whose edge it first enters a phi (what holds at the end of that block held when the value
+// was chosen).
+func phiLeafEdges(v ssa.Value) []leafAt {
+	seen := map[ssa.Value]bool{}
+	var out []leafAt
+	var rec func(v ssa.Value, from *ssa.BasicBlock)
+	rec = func(v ssa.Value, from *ssa.BasicBlock) {
+		if phi, ok := v.(*ssa.Phi); ok {
+			if seen[v] {
+				return
+			}
+			seen[v] = true
+			for i, e := range phi.Edges {
+				rec(e, phi.Block().Preds[i])
+			}
+			return
+		}
+		out = append(out, leafAt{v, from})
+	}
+	rec(v, nil)
+	return out
+}
+
+// guardsAtEnd: the conditions known when control leaves block b towards succ (its dominating
+// guards plus the polarity of its own branch).
+func guardsAtEnd(b, succ *ssa.BasicBlock) []Guard {
+	gs := guardsOf(b)
+	if iff, ok := b.Instrs[len(b.Instrs)-1].(*ssa.If); ok && b.Succs[0] != b.Succs[1] {
+		s := b.Succs[0] == succ
+		gs = append(gs, Guard{Cond: iff.Cond, Sense: s, If: iff})
+		gs = append(gs, impliedGuards(iff.Cond, s, iff, map[*ssa.Phi]bool{})...)
+	}
+	return gs
+}
+
+// knownPositive: do the guards of block b establish x > 0 for a value x accepted by is? Recognised
+// in either orientation and polarity: x > 0 holds, x <= 0 fails, 0 < x holds, 0 >= x fails (and the
+// same with a constant bound >= 0 on the strict side, >= 1 on the non-strict side).
+func knownPositive(b *ssa.BasicBlock, is func(v ssa.Value) bool) bool {
+	for _, g := range guardsOf(b) {
+		v, sense := g.Cond, g.Sense
+		for {
+			if u, ok := v.(*ssa.UnOp); ok && u.Op == token.NOT {
+				v, sense = u.X, !sense
+				continue
+			}
+			break
+		}
+		bo, ok := v.(*ssa.BinOp)
+		if !ok {
+			continue
+		}
+		op, x, y := bo.Op, bo.X, bo.Y
+		if _, isK := x.(*ssa.Const); isK {
+			// k OP x  ==  x OP' k
+			x, y = y, x
+			switch op {
+			case token.LSS:
+				op = token.GTR
+			case token.LEQ:
+				op = token.GEQ
+			case token.GTR:
+				op = token.LSS
+			case token.GEQ:
+				op = token.LEQ
+			}
+		}
+		k, isK := y.(*ssa.Const)
+		if !isK || k.Value == nil || !is(x) {
+			continue
+		}
+		kv, exact := constant.Int64Val(constant.ToInt(k.Value))
+		if !exact {
+			continue
+		}
+		if !sense {
+			switch op {
+			case token.LSS:
+				op = token.GEQ
+			case token.LEQ:
+				op = token.GTR
+			case token.GTR:
+				op = token.LEQ
+			case token.GEQ:
+				op = token.LSS
+			default:
+				continue
+			}
+		}
+		if (op == token.GTR && kv >= 0) || (op == token.GEQ && kv >= 1) {
+			return true
+		}
+	}
+	return false
+}
+
+// nilTest: v is `x == nil` or `x != nil`; returns x and whether v being true means x is nil.
+func nilTest(v ssa.Value) (x ssa.Value, nilWhenTrue bool, ok bool) {
+	bo, isB := v.(*ssa.BinOp)
+	if !isB || (bo.Op != token.EQL && bo.Op != token.NEQ) {
+		return nil, false, false
+	}
+	if k, isK := bo.Y.(*ssa.Const); isK && k.Value == nil {
+		return bo.X, bo.Op == token.EQL, true
+	}
+	if k, isK := bo.X.(*ssa.Const); isK && k.Value == nil {
+		return bo.Y, bo.Op == token.EQL, true
+	}
+	return nil, false, false
+}
+
+// guardedNil: block b is reached only when a value accepted by is was found nil (wantNil) or
+// non-nil (!wantNil), whichever way the test was written (x == nil / x != nil, either branch).
+func guardedNil(b *ssa.BasicBlock, is func(v ssa.Value) bool, wantNil bool) bool {
+	for _, g := range guardsOf(b) {
+		v, sense := g.Cond, g.Sense
+		for {
+			if u, ok := v.(*ssa.UnOp); ok && u.Op == token.NOT {
+				v, sense = u.X, !sense
+				continue
+			}
+			break
+		}
+		if x, nilWhenTrue, ok := nilTest(v); ok && is(x) && (nilWhenTrue == sense) == wantNil {
+			return true
+		}
+	}
+	return false
+}
+
+
+// sameValue: the two operands denote the same value: the same SSA value, or loads of one local /
+// access paths that read the same thing (a variable captured by a closure lives in a cell and every
+// use is a separate load of it).
+func sameValue(x, y ssa.Value) bool {
+	if x == y {
+		return true
+	}
+	tx, ty := TermOf(x, nil), TermOf(y, nil)
+	if tx.Kind == "opaque" || ty.Kind == "opaque" || tx.Kind == "phi" || ty.Kind == "phi" {
+		return false
+	}
+	return tx.String() == ty.String()
 }
